@@ -64,6 +64,33 @@ pub struct NetflowCommonFlowSet {
     pub dst_mac: Option<String>,
 }
 
+/// Protocol number of a field decoded either as a number or as a `ProtocolTypes` value.
+fn protocol_number(value: &FieldValue) -> Option<u8> {
+    match value {
+        FieldValue::ProtocolType(protocol) => Some(u8::from(*protocol)),
+        other => other.try_into().ok(),
+    }
+}
+
+/// Protocol type of a field decoded either as a number or as a `ProtocolTypes` value.
+fn protocol_type(value: &FieldValue) -> Option<ProtocolTypes> {
+    match value {
+        FieldValue::ProtocolType(protocol) => Some(*protocol),
+        other => other
+            .try_into()
+            .ok()
+            .map(|proto: u8| ProtocolTypes::from(proto)),
+    }
+}
+
+/// Milliseconds of a time field decoded either as a number or as a `Duration`.
+fn millis(value: &FieldValue) -> Option<u32> {
+    match value {
+        FieldValue::Duration(duration) => u32::try_from(duration.as_millis()).ok(),
+        other => other.try_into().ok(),
+    }
+}
+
 impl From<&V5> for NetflowCommon {
     fn from(value: &V5) -> Self {
         // Convert V5 to NetflowCommon
@@ -143,18 +170,12 @@ impl From<&V9> for NetflowCommon {
                             .and_then(|v| v.try_into().ok()),
                         protocol_number: value_map
                             .get(&V9Field::Protocol)
-                            .and_then(|v| v.try_into().ok()),
-                        protocol_type: value_map.get(&V9Field::Protocol).and_then(|v| {
-                            v.try_into()
-                                .ok()
-                                .map(|proto: u8| ProtocolTypes::from(proto))
-                        }),
-                        first_seen: value_map
-                            .get(&V9Field::FirstSwitched)
-                            .and_then(|v| v.try_into().ok()),
-                        last_seen: value_map
-                            .get(&V9Field::LastSwitched)
-                            .and_then(|v| v.try_into().ok()),
+                            .and_then(protocol_number),
+                        protocol_type: value_map
+                            .get(&V9Field::Protocol)
+                            .and_then(protocol_type),
+                        first_seen: value_map.get(&V9Field::FirstSwitched).and_then(millis),
+                        last_seen: value_map.get(&V9Field::LastSwitched).and_then(millis),
                         src_mac: value_map
                             .get(&V9Field::InSrcMac)
                             .and_then(|v| v.try_into().ok()),
@@ -212,10 +233,10 @@ impl From<&IPFix> for NetflowCommon {
                         ),
                         first_seen: value_map
                             .get(&IPFixField::FlowStartSysUpTime)
-                            .and_then(|v| v.try_into().ok()),
+                            .and_then(millis),
                         last_seen: value_map
                             .get(&IPFixField::FlowEndSysUpTime)
-                            .and_then(|v| v.try_into().ok()),
+                            .and_then(millis),
                         src_mac: value_map
                             .get(&IPFixField::SourceMacaddress)
                             .and_then(|v| v.try_into().ok()),
